@@ -65,8 +65,21 @@ fn emit_case(out: &mut dyn Write, o: &Opts, c: &Case, hist: &mut BTreeMap<String
             if m != 'A' && at > 0 && at <= 4 { late = true; }
             match first { None => first = Some(m), Some(f) => if f != m { single = false; } }
         }
+        // mixed_roundtrip_E: EDIFACT only as the final stretch (front ++ EDIFACT entries), first EDIFACT
+        // position > 4, the stretch's characters EDIFACT characters
+        let edi_tail = edi && !late && {
+            let ents: Vec<(usize, char)> = oc.plan.split(',').filter(|e| *e != "-" && !e.is_empty())
+                .map(|e| (e[..e.len() - 1].parse().unwrap_or(0), e.chars().last().unwrap())).collect();
+            let first = ents.iter().position(|e| e.1 == 'E').unwrap();
+            let body_len = vh::macro_prefix(&c.data, c.macros, c.fnc1).1.len();
+            let body = vh::macro_prefix(&c.data, c.macros, c.fnc1).1;
+            ents[first..].iter().all(|e| e.1 == 'E') && ents[first].0 > 4 && ents[first].0 <= body_len
+                && body[body_len - ents[first].0..].iter().all(|b| (32..=94).contains(b))
+        };
         if shaped {
             note(hist, "roundtrip_theorem_not_applicable_eci");
+        } else if edi_tail {
+            note(hist, "roundtrip_theorem_covers_plan_edifact_tail");
         } else if !edi && !late {
             note(hist, "roundtrip_theorem_covers_plan");
         } else if single && !prefixed {
